@@ -211,6 +211,10 @@ pub trait Group: Sync {
     fn generate(&self, ctx: &Ctx, rng: &mut Rng) -> Vec<String>;
     /// run the real kvarn code on the case; canonical text; `panic` if it panicked
     fn run_impl(&self, ctx: &Ctx, line: &str) -> String;
+    /// the text sent to the model driver for a case (default: the line itself)
+    fn driver_line(&self, line: &str) -> String {
+        line.to_owned()
+    }
     /// whether the model is expected to predict the implementation's output for this line.
     /// (`false` = explicitly excluded input region: oracle only.)
     fn compare_with_model(&self, _line: &str) -> bool {
@@ -295,7 +299,7 @@ fn still_fails(g: &dyn Group, ctx: &Ctx, line: &str, want_oracle: bool) -> bool 
     if !g.compare_with_model(line) {
         return false;
     }
-    match run_driver(&ctx.driver, &[line.to_owned()]) {
+    match run_driver(&ctx.driver, &[g.driver_line(line)]) {
         Ok(m) => g.canon(&m[0]) != g.canon(&io) && m[0] != "bad-op",
         Err(_) => false,
     }
@@ -333,7 +337,7 @@ pub fn run_group(g: &dyn Group, ctx: &Ctx, rng: &mut Rng, corpus: &[String], onl
     }
     let impl_out = run_lines(g, ctx, &lines);
     let cmp_idx: Vec<usize> = (0..lines.len()).filter(|i| g.compare_with_model(&lines[*i]) && !g.inconclusive(&impl_out[*i])).collect();
-    let cmp_lines: Vec<String> = cmp_idx.iter().map(|i| lines[*i].clone()).collect();
+    let cmp_lines: Vec<String> = cmp_idx.iter().map(|i| g.driver_line(&lines[*i])).collect();
     let mut res = GroupResult { name: g.name().into(), rule: g.rule().into(), ..Default::default() };
     let model_out = match run_driver(&ctx.driver, &cmp_lines) {
         Ok(m) => m,
@@ -372,7 +376,7 @@ pub fn run_group(g: &dyn Group, ctx: &Ctx, rng: &mut Rng, corpus: &[String], onl
             if res.disagreements.len() < 25 {
                 let small = shrink_line(g, ctx, &lines[*i], false);
                 let io = guarded(|| g.run_impl(ctx, &small));
-                let mo = run_driver(&ctx.driver, &[small.clone()]).map(|v| v[0].clone()).unwrap_or_default();
+                let mo = run_driver(&ctx.driver, &[g.driver_line(&small)]).map(|v| v[0].clone()).unwrap_or_default();
                 res.disagreements.push(serde_json::json!({"group": g.name(), "line": small, "original_line": lines[*i], "impl": io, "model": mo}));
             } else {
                 res.disagreements.push(serde_json::json!({"group": g.name(), "line": lines[*i], "impl": a, "model": b}));
